@@ -7,6 +7,7 @@ from model import enum_edge, Super, PathSens, fn_of, trace, strace, is_place, si
 import cliview
 import common
 import tables
+import vocab
 
 VMAP = {"json": "Json", "msgpack": "Msgpack", "toml": "Toml", "yaml": "Yaml"}
 
@@ -175,7 +176,7 @@ def r13_1(ctx):
             ok = ok and not any(tn in r for tn, _, _ in v.translate)
             ctx.ob(f"fail:{kind}:diverges-exit-1", ok, v.site(sn_), "failure continuation reaches only exit(1)" if ok else "failure continuation can go on or return (status 0 with a failed input)")
             if kind != "flush":
-                named_nodes = [w for w, tmpl, dts in named_w if w in r and tmpl.startswith("xt error in ") and any("InputPath" in ty or "Path" in ty for _, ty in dts)]
+                named_nodes = [w for w, tmpl, dts in named_w if w in r and tmpl.startswith("xt error in ") and any(vocab.bin_vocab(ctx.facts)["path"]["path"] in ty or "Path" in ty for _, ty in dts)]
                 named = bool(terms) and bool(named_nodes) and _always_through(v, st, named_nodes)
                 ctx.ob(f"fail:{kind}:names-input", named, v.site(sn_), "message is 'xt error in <input>: ...'" if named else "failure message does not name the offending input")
 
@@ -756,9 +757,9 @@ def r14_2(ctx):
         if t["k"] != "switch":
             continue
         for s in eb.blocks[bi]["stmts"]:
-            if s["k"] == "assign" and s["rv"]["k"] == "discr" and "InputPath" in s["rv"]["p"]["ty"]:
-                adt = binc.adts.get("InputPath")
-                sidx = [x["idx"] for x in (adt or {}).get("variants", []) if x["name"] == "Stdin"]
+            pv = vocab.bin_vocab(ctx.facts)["path"]
+            if s["k"] == "assign" and s["rv"]["k"] == "discr" and pv["path"] in s["rv"]["p"]["ty"]:
+                sidx = [pv["stdin_idx"]]
                 if not sidx:
                     continue
                 edges = [(lab, x) for lab, x in eb.edges(bi) if lab == sidx[0]]
@@ -853,7 +854,7 @@ def r14_3(ctx):
     # "-" -> stdin; no file arguments -> one stdin input
     dash = False
     for b in binc.bodies:
-        if b.raw.get("impl_trait") == "std::convert::From" and "InputPath" in b.local_ty(0):
+        if b.raw.get("impl_trait") == "std::convert::From" and vocab.bin_vocab(ctx.facts)["path"]["path"] in b.local_ty(0):
             for bb, t in b.calls():
                 f = fn_of(t) or {}
                 if f.get("trait", "").startswith("std::cmp::PartialEq"):
@@ -870,7 +871,7 @@ def r14_3(ctx):
                     sw = b.blocks[t["target"]]["term"]
                     if has_dash and sw["k"] == "switch":
                         tb = sw["otherwise"]
-                        dash = any(s["k"] == "assign" and s["rv"]["k"] == "aggregate" and s["rv"].get("variant") == "Stdin" for s in b.blocks[tb]["stmts"])
+                        dash = any(s["k"] == "assign" and s["rv"]["k"] == "aggregate" and s["rv"].get("adt") == vocab.bin_vocab(ctx.facts)["path"]["path"] and s["rv"].get("variant") == vocab.bin_vocab(ctx.facts)["path"]["stdin"] for s in b.blocks[tb]["stmts"])
     ctx.ob("dash-means-stdin", dash, "bin", "path \"-\" maps to the stdin variant")
     empty = False
     for n, b, t in v.calls:
@@ -879,7 +880,7 @@ def r14_3(ctx):
             sw = b.blocks[t["target"]]["term"]
             if sw["k"] == "switch":
                 r = b.reachable_from(sw["otherwise"], removed_nodes=[x for vv, x in sw["targets"]])
-                empty = any(s["k"] == "assign" and s["rv"]["k"] == "aggregate" and s["rv"].get("variant") == "Stdin" for x in r for s in b.blocks[x]["stmts"])
+                empty = any(s["k"] == "assign" and s["rv"]["k"] == "aggregate" and s["rv"].get("adt") == vocab.bin_vocab(ctx.facts)["path"]["path"] and s["rv"].get("variant") == vocab.bin_vocab(ctx.facts)["path"]["stdin"] for x in r for s in b.blocks[x]["stmts"])
     ctx.ob("no-files-means-stdin", empty, site(v.main), "an empty path list yields one stdin input")
 
 
@@ -903,7 +904,7 @@ def r14_4(ctx):
             tt = b.blocks[x]["term"]
             if tt["k"] == "call" and tt["dest"]["l"] == 0 and (fn_of(tt) or {}).get("name") == "from_residual":
                 bad.append(x)
-        filev = any(s["k"] == "assign" and s["rv"]["k"] == "aggregate" and s["rv"].get("variant") == "File" for x in r for s in b.blocks[x]["stmts"])
+        filev = any(s["k"] == "assign" and s["rv"]["k"] == "aggregate" and s["rv"].get("adt") == vocab.bin_vocab(ctx.facts)["opened"]["path"] and s["rv"].get("variant") == vocab.bin_vocab(ctx.facts)["opened"]["file"] for x in r for s in b.blocks[x]["stmts"])
         ctx.ob("mmap-failure-falls-back", not bad and filev, v.site(n), "mmap failure yields the file-reader variant" if not bad and filev else "mmap failure becomes an error (FIFOs / process substitution would fail)")
     for n, b, t in v.file_open:
         inspected, starts = v.err_starts(n, t)
@@ -914,13 +915,13 @@ def r14_4(ctx):
         key = f"{f['name']}@{vk}"
         tr = strace(sup, n, t["args"][1])
         if f["name"] == "translate_slice":
-            ok = any(s[0] == "downcast" and s[1] == "Mmap" for s in tr.steps) and all(s[0] in ("use", "ref", "deref", "field", "downcast", "enter_caller", "agg_field") or (s[0] == "call" and "Deref" in s[1]) for s in tr.steps)
+            ok = any(s[0] == "downcast" and s[1] == vocab.bin_vocab(ctx.facts)["opened"]["mmap"] for s in tr.steps) and all(s[0] in ("use", "ref", "deref", "field", "downcast", "enter_caller", "agg_field") or (s[0] == "call" and "Deref" in s[1]) for s in tr.steps)
             ctx.ob(f"{key}:map-passed-as-is", ok, v.site(n), "the mapping is passed as a slice through Deref only" if ok else f"slice argument is transformed: {tr.kinds()}")
         elif "Stdin" in vk:
             ok = bool(tr.origin and tr.origin[0] == "call" and (fn_of(tr.origin[2]) or {}).get("def") == "std::io::Stdin::lock")
             ctx.ob(f"{key}:reads-stdin", ok, v.site(n), "reader is the locked standard input")
         else:
-            ok = any(s[0] == "downcast" and s[1] == "File" for s in tr.steps) and all(s[0] in ("use", "field", "downcast", "enter_caller", "agg_field") for s in tr.steps)
+            ok = any(s[0] == "downcast" and s[1] == vocab.bin_vocab(ctx.facts)["opened"]["file"] for s in tr.steps) and all(s[0] in ("use", "field", "downcast", "enter_caller", "agg_field") for s in tr.steps)
             ctx.ob(f"{key}:file-passed-as-is", ok, v.site(n), "the opened file is the reader" if ok else f"reader argument is transformed: {tr.kinds()}")
         rtr = strace(sup, n, t["args"][0])
         same = bool(rtr.origin and rtr.origin[0] == "call" and v.new and rtr.origin[2] is v.new[0][2])
